@@ -1,7 +1,7 @@
 """C19 — An error while processing any tile is reported, never swallowed by parallelism."""
 PROPERTY = "C19"
 LEVEL = "other"
-CONTRACT_MODULES = ["contracts.specfuns", "contracts.lemmas_desc", "contracts.pyramid", "contracts.parallel", "contracts.walk", "contracts.reducer"]
+CONTRACT_MODULES = ["contracts.specfuns", "contracts.lemmas_desc", "contracts.pyramid", "contracts.parallel", "contracts.walk", "contracts.reducer", "contracts.lemmas_embed", "contracts.generator", "contracts.image", "contracts.merge", "contracts.pyramidio", "contracts.study", "contracts.multitan", "contracts.multiwcs", "contracts.toastsample", "contracts.toastgeom", "contracts.toastgen"]
 FUNCTIONS = [
     "toasty.par_util.ensure_workers_ok",
     "toasty.par_util.put_checking_workers",
@@ -15,6 +15,12 @@ FUNCTIONS = [
     "toasty.pyramid.Pyramid._walk_parallel",
     "toasty.pyramid.Pyramid._visit_leaves_parallel",
     "toasty.transform._transform_parallel",
+    "toasty.multi_tan.MultiTanProcessor._tile_parallel",
+    "toasty.multi_tan._mp_tile_worker",
+    "toasty.multi_wcs.MultiWcsProcessor._tile_parallel",
+    "toasty.multi_wcs._mp_tile_worker",
+    "toasty.pyramid.Pyramid.visit_leaves",
+    "toasty.pyramid.Pyramid.walk",
 ]
 LEMMAS = []
 SLOW = ()
